@@ -30,13 +30,18 @@ func init() {
 			{"pkg/slayers/path/scion", "MaxHops", ""},
 			{"pkg/slayers", "L4SCMP", ""},
 			{"pkg/slayers", "End2EndClass", ""},
+			{"pkg/slayers/path/epic", "MetadataLen", "EpicMetadataLen"},
 		}
 		for _, s := range consts {
 			v, err := c.ConstNat(s.Dir, s.Name)
 			if err != nil {
 				return err
 			}
-			fmt.Fprintf(&sb, "/-- `%s.%s` -/\ndef %s : Nat := %s\n", s.Dir, s.Name, s.Name, v)
+			as := s.As
+			if as == "" {
+				as = s.Name
+			}
+			fmt.Fprintf(&sb, "/-- `%s.%s` -/\ndef %s : Nat := %s\n", s.Dir, s.Name, as, v)
 		}
 		// ScmpHeaderSize: switch typeCode { case A, B: return n ... default: return d }
 		fd, err := c.Func("pkg/slayers", "", "ScmpHeaderSize")
